@@ -119,7 +119,7 @@ Proof.
   pose proof (pad_illegal_guard m _ _ off Hlt Hleg) as G.
   assert (E1 : pmode_eqb m PConstant = false) by (destruct m; auto; congruence).
   assert (E2 : padding_applies m = true) by (destruct m; auto; congruence).
-  split; unfold resize1; rewrite E1, E2; cbn [andb negb is_fwd].
+  split; rewrite resize1_valid by offv; unfold resize1_core; rewrite E1, E2; cbn [andb negb is_fwd].
   - set (pl := Z.to_nat off). set (pr := (length y - length x - pl)%nat).
     assert (En : length y = (pl + length x + pr)%nat) by (unfold pl, pr; lia).
     assert (Eoff : off = Z.of_nat pl) by (unfold pl; lia).
